@@ -35,6 +35,6 @@ func main() {
 		f(r) // registers scenarios only
 		os.Exit(r.ReplayFile(*replay))
 	}
-	f(r)
+	ev.Guard("the exploration", func() { f(r) })
 	os.Exit(r.Finish())
 }
